@@ -2110,7 +2110,15 @@ func parseIntLiteral(yylex yyLexer, literal string, intStr string, base int) int
 func parseExpIntLiteral(yylex yyLexer, literal string, valStr string, expStr string) int64 {
 	val, ok := new(big.Int).SetString(valStr, 10)
 	exp, err := strconv.ParseInt(expStr, 10, 64)
-	if !ok || err != nil || exp > 1000 || exp < -1000 {
+	if !ok || err != nil {
+		yylex.Error(fmt.Sprintf("int literal %s cannot be represented", literal))
+		return 0
+	}
+	// NOTE: zero is zero whatever the exponent is
+	if val.Sign() == 0 {
+		return 0
+	}
+	if exp > 1000 || exp < -1000 {
 		yylex.Error(fmt.Sprintf("int literal %s cannot be represented", literal))
 		return 0
 	}
